@@ -140,6 +140,52 @@ def spec_holds(sent, gots, final_valid, final_data):
     return True
 
 
+def two_port_part(res, rnd, a):
+    """a consumer with two inputs fed by two producers, reading one port right after the other (different ports need no spacing) and
+    forwarding what it received: each forwarded stream must be its producer's sequence, every value once and in order; also with
+    opcode delays (stalls) on the I/O instructions"""
+    viol, reqs, metas = [], [], []
+    for k in range(4 if a.tier == "quick" else 30):
+        rsize = rnd.choice([8, 16])
+        va = [rnd.randrange(1, 100) for _ in range(rnd.randint(3, 5))]
+        vb = [rnd.randrange(100, 200) for _ in range(len(va))]
+
+        def producer(vals):
+            prog = []
+            for v in vals:
+                prog += ["rset r0 %d" % v, "r2owa r0 o0"] + ["nop"] * rnd.randint(2, 4)
+            prog.append("j %d" % len(prog))
+            return {"arch": {"R": 1, "N": 0, "M": 1, "L": 0, "O": 6, "ops": ["rset", "r2owa", "nop", "j"], "mode": "ha", "rsize": rsize}, "prog": prog}
+        ra, rb = rnd.sample(range(4), 2)
+        cons = ["i2rw r%d i0" % ra, "i2rw r%d i1" % rb, "r2owa r%d o0" % ra] + ["nop"] * rnd.randint(2, 3) + ["r2owa r%d o1" % rb] + ["nop"] * rnd.randint(2, 3) + ["j 0"]
+        procs = [producer(va), producer(vb),
+                 {"arch": {"R": 2, "N": 2, "M": 2, "L": 0, "O": 5, "ops": ["i2rw", "r2owa", "nop", "j"], "mode": "ha", "rsize": rsize}, "prog": cons}]
+        spec = {"rsize": rsize, "procs": procs, "inputs": 0, "outputs": 2,
+                "bonds": [["p2i0", "p0o0"], ["p2i1", "p1o0"], ["o0", "p2o0"], ["o1", "p2o1"]]}
+        ticks = 40 * len(va) + 60
+        req = {"bm": spec, "ticks": ticks, "env": [{"in": [], "outrecv": [-1, -1]}] * ticks, "dump": "ext"}
+        if k % 2 == 1:
+            req["delays"] = {"i2rw": {str(rnd.choice([1, 2, 3])): 1.0}, "r2owa": {str(rnd.choice([1, 2])): 1.0}}
+        reqs.append(req)
+        metas.append({"machine": spec, "a": va, "b": vb, "delays": req.get("delays")})
+    for req, meta, r in zip(reqs, metas, simlib.run_sims(reqs)):
+        res.count_case(meta, nontrivial=True)
+        if r.get("err"):
+            viol.append(("a two-port consumer machine cannot be simulated: %s" % r["err"], {"request": req, "meta": meta}))
+            continue
+        outs = [[], []]
+        prev = [False, False]
+        for t in r["ticks"]:
+            for o in range(2):
+                if t["outv"][o] and not prev[o]:
+                    outs[o].append(t["out"][o])
+                prev[o] = t["outv"][o]
+        if outs != [meta["a"], meta["b"]]:
+            viol.append(("two producers send %s and %s; the two-port consumer forwards %s and %s%s" % (
+                meta["a"], meta["b"], outs[0], outs[1], " (opcode delays %s)" % meta["delays"] if meta["delays"] else ""), {"request": req, "meta": meta}))
+    return viol, len(reqs)
+
+
 def run(res, a):
     failed = C.proof_part(res, "C04", trusted=[
         "Net/Handshake.v: hand-written automata of the two protocols; SimSys is tied to the Go simulator by following the observed "
@@ -223,7 +269,10 @@ def run(res, a):
                 res.known_finding("c04_not_well_spaced_hdl schedule leaves the hypotheses at clock %d: %s" % (notok[0], text))
             else:
                 viol.append((text, {"request": q, "meta": meta}))
+    tp_viol, tp_n = two_port_part(res, rnd, a)
+    viol += tp_viol
     cov = res.coverage
+    cov["two_port_consumer_machines"] = tp_n
     cov["hdl_machines_interpreted"] = len(hcases)
     cov["hdl_schedules_outside_the_hypotheses"] = hnok
     cov["hdl_automaton_mismatches"] = len(hmism)
